@@ -800,9 +800,10 @@ end Tftp
 namespace Tftp
 
 /-- **nothing in flight**: both sides time out, the sender sends its whole window again -/
-theorem gs_quiet (sc : SCfg) (rc : RCfg) (lc : LoopCfgT sc rc) (fl : Faults) (hT : dropsTotal fl < Gen.maxRetries)
+theorem gs_quiet_core (sc : SCfg) (rc : RCfg) (lc : LoopCfgT sc rc) (fl : Faults)
     (f : Bytes) (s : SState) (r : RState) (nd na tmo : Nat) (B R : Nat)
-    (h : GS sc rc fl f ⟨s, r, [], [], nd, na, tmo⟩ B R [] []) :
+    (h : GS sc rc fl f ⟨s, r, [], [], nd, na, tmo⟩ B R [] [])
+    (hrs : s.retry + 1 ≠ Gen.maxRetries) (hrr : r.retry + 1 ≠ Gen.maxRetries) :
     ∃ st', netStep sc rc fl ⟨s, r, [], [], nd, na, tmo⟩ = some st' ∧
       GSNext sc rc fl f ⟨s, r, [], [], nd, na, tmo⟩ B R [] [] st' := by
   obtain ⟨hB1, htopN, hlenw, hsbn, hrbn, hslen, hpw⟩ := h.facts lc
@@ -814,8 +815,7 @@ theorem gs_quiet (sc : SCfg) (rc : RCfg) (lc : LoopCfgT sc rc) (fl : Faults) (hT
     simp only [List.any_nil, willAck, Bool.or_self, Bool.false_eq_true, ↓reduceIte] at debt
     exact debt
   have hle := dropsSoFar_le_total fl nd na
-  have hrs : s.retry + 1 ≠ Gen.maxRetries := by omega
-  have hrr : r.retry + 1 ≠ Gen.maxRetries := by omega
+  have hretry : s.retry < Gen.maxRetries := sinv.retry_lt (by rw [srun]; simp)
   have hs := sender_timeout sc s srun ssince hrs
   have hr := recv_timeout rc r rrun hrr
   have hdata := window_data sinv
@@ -853,6 +853,21 @@ theorem gs_quiet (sc : SCfg) (rc : RCfg) (lc : LoopCfgT sc rc) (fl : Faults) (hT
     have hm := mul_drop (6 * sc.w + 1) (dropsTotal fl - tmo) (dropsTotal fl - (tmo + 1)) (by omega)
     simp only [List.length_nil]
     omega
+
+theorem gs_quiet (sc : SCfg) (rc : RCfg) (lc : LoopCfgT sc rc) (fl : Faults) (hT : dropsTotal fl < Gen.maxRetries)
+    (f : Bytes) (s : SState) (r : RState) (nd na tmo : Nat) (B R : Nat)
+    (h : GS sc rc fl f ⟨s, r, [], [], nd, na, tmo⟩ B R [] []) :
+    ∃ st', netStep sc rc fl ⟨s, r, [], [], nd, na, tmo⟩ = some st' ∧
+      GSNext sc rc fl f ⟨s, r, [], [], nd, na, tmo⟩ B R [] [] st' := by
+  have hdebt : tmo + 1 ≤ dropsSoFar fl nd na := by
+    have := h.debt
+    simp only [List.any_nil, willAck, Bool.or_self, Bool.false_eq_true, ↓reduceIte] at this
+    exact this
+  have hle := dropsSoFar_le_total fl nd na
+  have h1 := h.sretry
+  have h2 := h.rretry
+  simp only at h1 h2
+  exact gs_quiet_core sc rc lc fl f s r nd na tmo B R h (by omega) (by omega)
 
 /-- one scheduling step from any state of the running phase -/
 theorem gs_step (sc : SCfg) (rc : RCfg) (lc : LoopCfgT sc rc) (fl : Faults) (hT : dropsTotal fl < Gen.maxRetries)
@@ -996,14 +1011,17 @@ theorem gf_step (sc : SCfg) (rc : RCfg) (lc : LoopCfgT sc rc) (fl : Faults) (f :
       have hnr : receiverRunning r = false := by simp [receiverRunning, rok]
       have hsr : senderRunning s = true := by simp [senderRunning, srun]
       by_cases hr : s.retry + 1 = Gen.maxRetries
-      · obtain ⟨h1, h2⟩ := sender_timeout_giveup sc s srun sc.timeout hr
+      · obtain ⟨h1, h2, h3⟩ := sender_timeout_giveup sc s srun sc.timeout hr
         refine ⟨emitData fl ⟨(sStep sc s .fail sc.timeout).1, r, [], [], nd, na, tmo + 1⟩ (sStep sc s .fail sc.timeout).2,
           ?_, Or.inl ?_⟩
         · simp only [List.map_nil, netStep, hnr, hsr, Bool.not_true, Bool.false_and, Bool.false_eq_true, ↓reduceIte]
-        · refine ⟨rok, rfile, Or.inr ⟨?_, lost (by simp)⟩⟩
-          show (emitData fl _ _).s.status = .failed
-          unfold emitData
-          exact h1
+        · refine ⟨rok, rfile, Or.inr ⟨?_, ?_, lost (by simp)⟩⟩
+          · show (emitData fl _ _).s.status = .failed
+            unfold emitData
+            exact h1
+          · show (emitData fl _ _).s.retry = Gen.maxRetries
+            unfold emitData
+            exact h3
       · have hs := sender_timeout sc s srun ssince hr
         have hdata := window_data sinv
         rw [sbase] at hdata
